@@ -126,7 +126,7 @@ OTHER_ATTRS = ["id", "title", "style", "data-x", "loading"]
 
 def gen_fragment(R):
     """An HTML fragment that is never 'all img / all div.admonition' (pass-through expected in every configuration)."""
-    k = R.randrange(19)
+    k = R.randrange(22)
     v = R.choice(VALUES).replace('"', "&quot;").replace("\t", " ")
     if k == 0:
         return f'<div class="box" data-v="{v}">\ninner <b>bold</b> *not md*\n</div>', "block"
@@ -165,6 +165,13 @@ def gen_fragment(R):
         return "<section>\ntext <", "block"
     if k == 17:
         return '<div class="admonition"\ntitle="cut', "block"
+    # a convertible element followed, in the SAME html block, by something that is not: the whole block passes through
+    if k == 18:
+        return '<div class="admonition">\n<p>text with an omitted end tag\n</div>\n<table><tr><td>cell</td></tr></table>', "block"
+    if k == 19:
+        return '<div class="admonition note"><ul><li>item <em>open</div>\n<span>after</span>', "block"
+    if k == 20:
+        return '<img src="first.png"><p>tail', "block"
     return R.choice(["<!-- never closed " + v.replace("--", "- -"), "<?php never closed", "<![CDATA[ never closed", "<!DOCTYPE never closed"]), "block"
 
 
@@ -328,8 +335,9 @@ def eval_adm(ctx, case):
     inner = []
     if title is not None:
         inner.append(f'<{case.get("title_tag", "p")} class="{case.get("title_class", "title")}">{title}</{case.get("title_tag", "p")}>')
-    for p in paras:
-        inner.append(f"<p>{p}</p>")
+    for i, p in enumerate(paras):
+        # the end tag of the last <p> may be omitted: </div> closes it
+        inner.append(f"<p>{p}" if case.get("unclosed") and i == len(paras) - 1 and not bare else f"<p>{p}</p>")
     if bare:
         inner.append(bare)
     dv = {"lower": "div", "upper": "DIV", "mixed": "Div"}[case.get("tagcase", "lower")]
@@ -338,6 +346,10 @@ def eval_adm(ctx, case):
     opts = [("class", cls)] + ([("name", name)] if name is not None else [])
     dlines = ["````{admonition} " + (title if title is not None else "Note"), "---"] + [f"{k}: {yaml_q(v)}" for k, v in sorted(opts)] + ["---", "", body, "````"]
     dir_doc = "\n".join(dlines) + "\n"
+    if case.get("twice") and name is None:
+        # two admonitions back to back in ONE html block == two directives
+        html_doc = html_doc + html_doc
+        dir_doc = dir_doc + "\n" + dir_doc
     exts = ["html_admonition"] + (["html_image"] if case.get("img") else [])
     try:
         d1, w1 = render(html_doc, exts)
@@ -470,7 +482,7 @@ def case_adm(R):
     bare = R.choice([None, None, "bare **text** &#42;x&#42;", "- item one\n- item two"]) if paras else R.choice(["bare **text**", "- item one\n- item two", "x &#95;y&#95;"])
     title = R.choice([None, "My *title*", "T &amp; U", "&#42;T&#42;", "plain"])
     return {"kind": "adm", "classes": R.choice(["admonition", "admonition note", "warning admonition x-y", "admonition  two  spaces"]), "name": R.choice([None, None, "adm-name", "Name With Caps", "n#1", 'q"uote']), "title": title,
-            "title_tag": R.choice(["p", "div"]), "title_class": R.choice(["title", "admonition-title", "title extra"]), "paras": paras, "bare": bare, "img": R.random() < 0.3, "tagcase": R.choice(["lower", "lower", "upper", "mixed"])}
+            "title_tag": R.choice(["p", "div"]), "title_class": R.choice(["title", "admonition-title", "title extra"]), "paras": paras, "bare": bare, "img": R.random() < 0.3, "tagcase": R.choice(["lower", "lower", "upper", "mixed"]), "unclosed": R.random() < 0.3, "twice": R.random() < 0.3}
 
 
 def gfm_cases():
